@@ -84,6 +84,7 @@ func runC11(cw *caseWriter, tier string, seed uint64) {
 		c11n = nil
 	}
 	runC15fail(cw, tier, seed)
+	runC103(cw, tier, seed, 0) // snapshots and compaction inside the composed cluster system (Model/ClusterCommit.v, cstep true)
 }
 
 // ---------------------------------------------------------------- snapshots taken in node sequences
